@@ -38,6 +38,8 @@ const (
 	opReset
 	opQuery
 	opNestedMarshal
+	opNestedFail // a nested MarshalEncode that fails half way; the error is swallowed
+	opRepair     // close whatever is open above the entry depth, re-using a member name
 	numOps
 )
 
@@ -60,6 +62,7 @@ func exec(enc *jsontext.Encoder, ops []Op, ignore bool) error {
 	}
 	execDepth++
 	defer func() { execDepth-- }()
+	entry := enc.StackDepth()
 	for _, o := range ops {
 		var err error
 		switch o.K {
@@ -102,6 +105,49 @@ func exec(enc *jsontext.Encoder, ops []Op, ignore bool) error {
 			_ = enc.OutputOffset()
 		case opNestedMarshal:
 			err = json.MarshalEncode(enc, map[string]int64{"n": o.N})
+		case opNestedFail:
+			// leaves containers open: the library must not let them be completed
+			// into something invalid afterwards
+			var v any
+			switch ((o.N % 4) + 4) % 4 {
+			case 0:
+				v = struct {
+					A int
+					L []chan int
+				}{1, []chan int{nil}}
+			case 1:
+				v = map[string][]chan int{"A": {nil}}
+			case 2:
+				v = struct {
+					A int
+					M map[string][]chan int
+				}{1, map[string][]chan int{"A": {nil}}}
+			default:
+				v = []any{map[string]any{"A": []any{make(chan int)}}}
+			}
+			_ = json.MarshalEncode(enc, v)
+		case opRepair:
+			for d := enc.StackDepth(); d > entry; d = enc.StackDepth() {
+				kind, n := enc.StackIndex(d)
+				if kind == '[' {
+					err = enc.WriteToken(jsontext.EndArray)
+				} else {
+					if n%2 == 1 {
+						enc.WriteToken(jsontext.Null)
+					}
+					name := "A"
+					if o.S != nil {
+						name = string(o.S)
+					}
+					if e := enc.WriteToken(jsontext.String(name)); e == nil {
+						enc.WriteToken(jsontext.Int(3))
+					}
+					err = enc.WriteToken(jsontext.EndObject)
+				}
+				if err != nil || enc.StackDepth() >= d {
+					break // the encoder refuses: stop (no endless loop)
+				}
+			}
 		}
 		if err != nil && !ignore {
 			return err
@@ -227,6 +273,10 @@ func genOps(t *rapid.T) []tv.Val {
 		ops = []Op{{K: opInt, N: 1}, {K: opRetUnsupported}}
 	case 7: // unsupported before writing
 		ops = []Op{{K: opRetUnsupported}}
+		if rapid.Bool().Draw(t, "failrepair") {
+			// a nested call fails half way, the script swallows the error and completes the output by hand
+			ops = []Op{{K: opNestedFail, N: int64(rapid.IntRange(0, 3).Draw(t, "failkind"))}, {K: opRepair}}
+		}
 	default:
 		n := rapid.IntRange(0, 7).Draw(t, "nops")
 		for i := 0; i < n; i++ {
